@@ -960,6 +960,10 @@ def write_evidence(tier, seed, d, wall, nviol, harness, jobs):
             "scheduler_woke_with_multiple_results",
             "caller_threads_interleaved_in_accessor",
             "prange_iterations_interleaved",
+            "farm_two_different_kernels_compiling_at_once",
+            "pair_shares_lazy_cube",
+            "call_histories_checked",
+            "tee_computed_in_one_graph",
         )
         if not probes.get(p)
     ]
@@ -1010,6 +1014,7 @@ def write_evidence(tier, seed, d, wall, nviol, harness, jobs):
                     "numba compilation step in high-volume wrapper races -> slow-compile stub returning the kernel compiled at warm-up",
                     "parfor runtime for interleavings -> Python model of prange semantics",
                     "uuid.uuid4 -> seeded generator",
+                    "Workload W only: kernels and decorators are plain-Python stubs (guvectorize-like / njit-like); lazycompile itself is the working tree's",
                 ],
             },
             "jobs": [j["name"] for j in jobs],
